@@ -51,6 +51,9 @@ K("add_item_bq_euclidean", ["C05", "C12", "C07"], ITF,
 K("add_append_wrong_length_rejected", ["C19"], ITF,
   "add_item/append_item with len != dim return InvalidVecDimension{expected: dim, received: len}; store byte-identical, no write attempted",
   "dim 1..=4, len 0..=6, symbolic store of 3 entries", site="Writer::add_item/append_item")
+K("add_append_wrong_length_rejected_bq", ["C19"], ITF,
+  "the same under a quantised metric: received = the number of values passed, not the padded width of the encoding",
+  "BinaryQuantizedEuclidean, dim 3, 5 values of any bit pattern, symbolic store of 1 entry", site="Writer::add_item/append_item")
 K("append_item_contract", ["C19", "C05", "C06", "C07"], ITF,
   "append_item succeeds iff the new item key sorts after every key of the whole store (any index) and then equals add_item; else InvalidItemAppend and no change",
   ST3, site="Writer::append_item")
